@@ -7,5 +7,6 @@ CONSTANTS
   MaxOps = 8
   Slack = 1
   UseResult = TRUE
+  Recheck = TRUE
 INVARIANTS TypeOK NoOrphan Reclaimed FreeIsEmpty NoStale
 CHECK_DEADLOCK FALSE
